@@ -439,25 +439,39 @@ def _one_anonymizer_per_run(ctx, m, rep, cl):
                        key="%s.fresh-anonymizer|%s" % (cl, e.b))
 
 
+def _random_call(t):
+    return any(x[0] == "call" and (M.callee_name(x) in ("choice", "choices", "random", "randint", "urandom", "token_hex", "token_urlsafe", "uuid4", "getrandbits", "sample", "randrange", "token_bytes")) for x in subterms(t))
+
+
 def _salt_defaulting(ctx, rep, cl):
-    """self.salt is replaced by a random value only when it is None (an empty salt is a salt)."""
+    """self.salt is the given salt; it is replaced by a generated one only when the parameter is None
+    (an explicit empty salt is a salt)."""
     p, A = ctx.p, ctx.A
     f_fa = p.find_function("FileAnonymizer.__init__")
     fp = A.paths(f_fa)
     seen = False
+    ps = ("param", "salt")
     for path in fp.paths:
+        if not path.feasible() or path.kind == "raise":
+            continue
         stores = [e for e, ls in path.stores() if e.kind == "store_attr" and e.a == SELF and e.b == "salt"]
-        if len(stores) >= 2:
+        if not stores:
+            rep.fail(cl + ".salt-field", "FileAnonymizer.__init__", "no store to self.salt on path %s" % path.describe()[:100], where(f_fa), key=cl + ".salt-field|FileAnonymizer.__init__")
+            continue
+        final = stores[-1].c
+        none_p = path.truth(("compare", ("is",), (ps, ("const", None))))
+        none_f = path.truth(("compare", ("is",), (("attr", SELF, "salt"), ("const", None))))
+        if _random_call(final):
             seen = True
-            guard = False
-            for t, pol, _ in path.conds:
-                for x in (("attr", SELF, "salt"), ("param", "salt")):
-                    if M.is_none_test(t, x) is True and pol or M.is_none_test(t, x) is False and not pol:
-                        guard = True
+            guard = none_p is True or none_f is True
             rep.ob(cl + ".salt-default-only-none", "FileAnonymizer.__init__", guard,
-                   "the salt is regenerated under %s; must be exactly `salt is None` (an explicit empty salt must be kept)" % path.describe()[:200], where(f_fa, stores[1].node),
+                   "the salt is generated under %s; must be exactly `salt is None` (an explicit empty salt must be kept)" % path.describe()[:200], where(f_fa, stores[-1].node),
                    key=cl + ".salt-default-only-none|FileAnonymizer.__init__", nontrivial=False)
-    rep.ob(cl + ".salt-default-found", "FileAnonymizer.__init__", seen, "salt defaulting path found", where(f_fa), nontrivial=False)
+        else:
+            ok = final == ps and none_p is not True and none_f is not True
+            rep.ob(cl + ".salt-kept", "FileAnonymizer.__init__", ok, "a given salt is stored as is (self.salt = %s under %s)" % (show(final)[:60], path.describe()[:120]), where(f_fa, stores[-1].node),
+                   key=cl + ".salt-kept|FileAnonymizer.__init__", nontrivial=False)
+    rep.ob(cl + ".salt-default-found", "FileAnonymizer.__init__", seen, "salt generation path found", where(f_fa), nontrivial=False)
 
 
 # ----------------------------------------------------------------------
@@ -519,7 +533,21 @@ def cli_options(ctx):
     p, A, G, folder = ctx.p, ctx.A, ctx.G, ctx.folder
     f = p.find_function("_parse_args")
     out = {}
-    for n in ast.walk(f.node):
+    # _parse_args and the helper functions of its module it (transitively) calls
+    nodes = []
+    todo, seenf = [f], set()
+    while todo:
+        g = todo.pop()
+        if g.qualname in seenf:
+            continue
+        seenf.add(g.qualname)
+        for n in ast.walk(g.node):
+            nodes.append(n)
+            if isinstance(n, ast.Call) and isinstance(n.func, ast.Name):
+                r = p.resolve_module_name(g.module, n.func.id)
+                if r and r[0] == "func":
+                    todo.append(r[1])
+    for n in nodes:
         if isinstance(n, ast.Call) and isinstance(n.func, ast.Attribute) and n.func.attr == "add_argument":
             flags = []
             for a in n.args:
